@@ -38,8 +38,9 @@ func (o *ObjectRangeRequest) Range(size int64) (*ObjectRange, error) {
 		start = o.Start
 		end := o.End
 
-		if o.End == RangeNoEnd {
-			// If no end is specified, range extends to end of the file.
+		if o.End == RangeNoEnd || end >= size {
+			// If no end is specified, or it lies beyond the end of the file,
+			// range extends to end of the file.
 			length = size - start
 		} else {
 			length = end - start + 1
